@@ -103,6 +103,9 @@ def run(chk, tier):
 
 def find_item(sf, short):
     cands = [(f, it) for f, it in sf.items("lib") if it["kind"] in ("struct", "enum") and it["ident"] == short and f == FILES[short]]
+    if len(cands) != 1:
+        # the file a type is declared in is not behaviour (a module may have become a directory): the one declaration of that name in the library
+        cands = [(f, it) for f, it in sf.items("lib") if it["kind"] in ("struct", "enum") and it["ident"] == short and "tests" not in (it.get("mod") or "")]
     return cands[0] if len(cands) == 1 else None
 
 
